@@ -79,6 +79,9 @@ func abiTupleRule(c *Check, rule string, tnames ...string) int {
 			var tuple string
 			for _, b := range fn.Blocks {
 				for _, ins := range b.Instrs {
+					if c.P.IsClone(ins) {
+						continue
+					}
 					if u, ok := ins.(*ssa.UnOp); ok {
 						if g, ok := u.X.(*ssa.Global); ok && strings.HasPrefix(g.Name(), "Tuple") {
 							tuple = g.Name()
